@@ -70,6 +70,7 @@ CLAIMED = {
              "covariance, the map affine and independent of the current state, and the stacked operator's adjoint action the exact "
              "transpose of its forward action. For UGLA the same reading must give mean and covariance of the documented local Gaussian "
              "A^T Gamma^-1 A + (1/scale) D^T W_k D at the current state.",
+        text2="History independence (every class, incl. the one excluded by the recorded UGLA finding): step k of a chain must equal the step a fresh sampler started at the same state makes under the same scripted perturbation. A third of the RTO cases run with cuqi.config.MIN_DIM_SPARSE lowered so that the sparse square-root code path is taken.",
         note="Inner CGLS run with tol 1e-14 and maxit 20n+100 (convergence itself is C16's subject). UGLA with non-zero LMRF location is a "
              "recorded finding (excluded, counted).",
         design="3/C06"),
@@ -93,6 +94,7 @@ CLAIMED = {
              "the same momentum and slice repeated M times, the frequency with which each leaf is returned per direction pattern must be "
              "that of uniform progressive sub-sampling with top-level probability min(1, n'/n). Invariance: x ~ target exactly, k "
              "transitions, whitened KS/mean/variance tests.",
+        text2="The invariance test includes un-normalised targets (log-density shifted by -900/-5000/+400) and, for both interfaces, the step size produced by the sampler's own warm-up.",
         note="Selection law and invariance are statistical (two-stage, joint false-alarm <= 1e-11 per test): 4000/20000 repeats per case; "
              "detect selection-probability errors of a few percent. Depth <= 3 in the selection law, <= 6 in the exact part.",
         design="3/C08"),
@@ -107,6 +109,7 @@ CLAIMED = {
              "sample call resumes from the last stored tuple. MH blocks additionally run the C02 decision test against the true current "
              "conditional inside the sweep. Invariance: theta ~ prior, y ~ p(y|theta), s sweeps on p(theta|y) with exact block samplers "
              "must leave theta prior-distributed (KS and variance tests on closed-form pivots, two-stage rule).",
+        text2="Block samplers include pCN (decision test against the likelihood ratio of the current conditional, proposal learnt by a dry run with the state restored through get_state/set_state); the sampling_strategy / num_sampling_steps dictionaries are passed in permuted key order and with step counts for a subset of blocks; legacy Gibbs is run as sample(N, Nb>0) followed by sample(M).",
         note="Statistical part: 600 (quick) / 6000 (thorough) replicates per configuration: detects gross violations of invariance only "
              "(KS sup-distance ~0.07 / 0.02); the history part is exact.",
         design="3/C09"),
@@ -118,6 +121,7 @@ CLAIMED = {
              "logd; unsupported structures (wrong functional dependence, two occurrences, multivariate Gamma, non-Gamma prior, non-"
              "Gaussian likelihood) must be rejected - an accepted one is a violation only if what it draws from is not the true "
              "conditional; ConjugateApprox: rejection rules only; Direct: step() equals target.sample() under the same seeded stream.",
+        text2="A third of the experimental cases re-target a sampler object that has already been used on another posterior of the same structure (as HybridGibbs does).",
         note="Recorded findings (GMRF with periodic/neumann bc: shape uses len(x) instead of the rank; legacy Conjugate without structural "
              "validation) are excluded and counted.",
         design="3/C10"),
@@ -129,6 +133,7 @@ CLAIMED = {
              "object, adding every derived object to the pool. After every step every pooled object must still show the fingerprint taken "
              "at its creation (logd and gradient at fixed assignments, parameter names, conditioning variables, name, dim, geometry type, "
              "seeded samples, model forward values and argument names), and conditioned copies must report their original's name.",
+        text2="The conditioning rule draws a value variant so that siblings conditioned on different values coexist; every newly derived object is additionally compared with the same derivation replayed on freshly built, untouched originals (history independence).",
         note="Explicit mutators (enable_FD, attribute assignment) are not rules; cosmetic geometry variable labels are not part of the "
              "fingerprint. 25 (quick) / 50 (thorough) steps per history.",
         design="3/C11"),
@@ -191,6 +196,7 @@ CLAIMED = {
              "solution; no probe point at 1e-3..1e-1 posterior standard deviations may have a larger logd and the gradient must vanish in "
              "units of the posterior scale; for non-linear problems the estimate must be as good as a multi-start high-precision optimum; "
              "with np.random.randn scripted the direct sampling route must have offset = closed-form mean and B B^T = closed-form covariance.",
+        text2="Cases also materialise covariances with compute_cov() first (closed-form route for prec/sqrtprec/sqrtcov inputs) and pass a generated x0 to MAP. ML by numerical optimisation is accepted when it is the weighted least-squares solution or stationary for the reference log-likelihood within the solver's tolerance.",
         note="Trusted: numpy.linalg closed forms; scipy optimisers for the multi-start reference. Exceptions are refusals (allowed). "
              "Matrix-backed models with KL/Step geometry are a recorded finding (excluded, counted).",
         design="3/C15"),
@@ -241,7 +247,7 @@ def main():
             "evidence_file": f"/verif/evidence/{pid}.json",
             "replay_cmd_template": f"./check {pid} --replay {{path}}",
             "engine": "vlib",
-            "level_claimed": {"category": "exploration", "text": c["text"], "design_ref": c["design"]},
+            "level_claimed": {"category": "exploration", "text": c["text"] + (" " + c["text2"] if c.get("text2") else ""), "design_ref": c["design"]},
             "level_note": c["note"],
             "technique": c["technique"],
         })
